@@ -116,4 +116,225 @@ example : pow2 (-1021) ≤ step64 witnessBins ∧ atol64 witnessBins ≤ step64 
 -- integers on the float grid 5.9, 33.2, …: 33 is in bin 0, 34 in bin 1
 example : bin1dF (cfgIntPts false) witnessBins 33 = 0 ∧ bin1dF (cfgIntPts false) witnessBins 34 = 1 := by decide +kernel
 
+/-! ## the lower side for a general point tolerance (round 4): a value at or above an edge may not go below it
+
+`qF_lower` / `qF_nonneg` (Proofs/Bin1d.lean) use of the point tolerance only that it is non-negative; here they are restated for
+`qG pt` and `bin1dF_never_below` is proved for EVERY configuration with float64 edges whose quotient is `qG pt`, `pt ≥ 0` — in
+particular the `tol=` override (`get_magnitude_index(mags, tol)`, `magnitude_counts(tol=)`) and integer points on float edges,
+which until now had the upper band by theorem but the lower side only by oracle + correspondence. -/
+
+/-- lower bound on the float quotient with point tolerance `pt ≥ 0`: if `p` lies at least `(K − 1/4)·h` above `a0`, the
+quotient is at least `K − 1` -/
+theorem qG_lower {n : ℕ} (hn : 1 < n) (edge : ℕ → ℚ) (p pt : ℚ) (hpt0 : 0 ≤ pt) (K : ℤ) (hK1 : 1 ≤ K) (hK : K ≤ 2 ^ 40)
+    (hh : pow2 (-1021) ≤ hOf .f64 n edge)
+    (hat : getTol .f64 (edge 0) ≤ hOf .f64 n edge / 4)
+    (hp : edge 0 + ((K : ℚ) - 1 / 4) * hOf .f64 n edge ≤ p) :
+    ((K - 1 : ℤ) : ℚ) ≤ qG pt n edge p := by
+  have hn1 : (n == 1) = false := by simp; omega
+  set h := hOf .f64 n edge with hh_def
+  set at_ := getTol .f64 (edge 0) with hat_def
+  have hhpos : 0 < h := lt_of_lt_of_le (Soft64R.pow2_pos _) hh
+  have hat0 : 0 ≤ at_ := getTol_f64_nonneg _
+  have hidem : fl64 h = h := by
+    rw [hh_def]; unfold hOf; simp only [hn1, DT.rnd]; exact Soft64R.fl64_idem _
+  have hKq : (1 : ℚ) ≤ (K : ℚ) := by exact_mod_cast hK1
+  have hKq2 : (K : ℚ) ≤ 2 ^ 40 := by exact_mod_cast hK
+  have hx : ((K : ℚ) - 1 / 4) * h ≤ p - edge 0 := by linarith
+  have hx34 : 3 / 4 * h ≤ p - edge 0 := by nlinarith
+  have hxpos : 0 < p - edge 0 := by linarith
+  have h1022 : pow2 (-1022) ≤ 3 / 4 * h := by
+    have : pow2 (-1021) = 2 * pow2 (-1022) := by
+      have := Soft64R.pow2_succ (-1022); simpa using this
+    have := Soft64R.pow2_pos (-1022)
+    linarith
+  have hrel := Soft64R.fl64_rel_err (x := p - edge 0) (by rw [abs_of_pos hxpos]; linarith)
+  rw [abs_of_pos hxpos, pow2_m53] at hrel
+  have ht1 : (p - edge 0) * (1 - 1 / 2 ^ 53) ≤ fl64 (p - edge 0) := by
+    have := (abs_le.mp hrel).1; linarith
+  set t1 := fl64 (p - edge 0) with ht1_def
+  have ht1pos : 0 ≤ t1 := Soft64R.fl64_nonneg hxpos.le
+  have ht2 : t1 ≤ fl64 (t1 + pt) :=
+    Soft64R.fl64_ge_of_ge_float (Soft64R.fl64_idem _) (by linarith)
+  set t2 := fl64 (t1 + pt) with ht2_def
+  have hidem2 : fl64 t2 = t2 := Soft64R.fl64_idem _
+  have ht3 : t2 ≤ fl64 (t2 + at_) := Soft64R.fl64_ge_of_ge_float hidem2 (by linarith)
+  set t3 := fl64 (t2 + at_) with ht3_def
+  have hden_le : fl64 (h - at_) ≤ h := Soft64R.fl64_le_of_le_float hidem (by linarith)
+  have hden_pos : 0 < fl64 (h - at_) := by
+    have hf : fl64 (pow2 (-1022)) = pow2 (-1022) := by
+      have := Soft64R.fl64_exact (m := 1) (j := -1022) (by norm_num) (by norm_num)
+      simpa using this
+    have : pow2 (-1022) ≤ fl64 (h - at_) := Soft64R.fl64_ge_of_ge_float hf (by linarith)
+    exact lt_of_lt_of_le (Soft64R.pow2_pos _) this
+  have hqG : qG pt n edge p = fl64 (t3 / fl64 (h - at_)) := rfl
+  rw [hqG]
+  apply Soft64R.fl64_ge_of_ge_float
+  · exact Soft64R.fl64_intCast (by rw [abs_of_nonneg (by omega)]; omega)
+  · have ht3pos : 0 ≤ t3 := by linarith
+    have h3 : t3 / h ≤ t3 / fl64 (h - at_) := div_le_div_of_nonneg_left ht3pos hden_pos hden_le
+    have h4 : ((K : ℚ) - 1 / 4) * (1 - 1 / 2 ^ 53) ≤ t3 / h := by
+      rw [le_div_iff₀ hhpos]
+      have : ((K : ℚ) - 1 / 4) * h * (1 - 1 / 2 ^ 53) ≤ t1 := by
+        have : (0 : ℚ) ≤ 1 - 1 / 2 ^ 53 := by norm_num
+        nlinarith
+      nlinarith
+    have h5 : ((K - 1 : ℤ) : ℚ) ≤ ((K : ℚ) - 1 / 4) * (1 - 1 / 2 ^ 53) := by
+      push_cast
+      nlinarith
+    linarith
+
+/-- the float quotient with point tolerance `pt ≥ 0` is non-negative at or above the first edge -/
+theorem qG_nonneg {n : ℕ} (edge : ℕ → ℚ) (p pt : ℚ) (hpt0 : 0 ≤ pt)
+    (hh : pow2 (-1021) ≤ hOf .f64 n edge)
+    (hat : getTol .f64 (edge 0) ≤ hOf .f64 n edge / 4)
+    (hp : edge 0 ≤ p) : 0 ≤ qG pt n edge p := by
+  have hat0 : 0 ≤ getTol .f64 (edge 0) := getTol_f64_nonneg _
+  have hden_pos : 0 < fl64 (hOf .f64 n edge - getTol .f64 (edge 0)) := by
+    have hf : fl64 (pow2 (-1022)) = pow2 (-1022) := by
+      have := Soft64R.fl64_exact (m := 1) (j := -1022) (by norm_num) (by norm_num)
+      simpa using this
+    have h2 : pow2 (-1021) = 2 * pow2 (-1022) := by
+      have := Soft64R.pow2_succ (-1022); simpa using this
+    have := Soft64R.pow2_pos (-1022)
+    have : pow2 (-1022) ≤ fl64 (hOf .f64 n edge - getTol .f64 (edge 0)) :=
+      Soft64R.fl64_ge_of_ge_float hf (by linarith)
+    exact lt_of_lt_of_le (Soft64R.pow2_pos _) this
+  unfold qG
+  apply Soft64R.fl64_nonneg
+  apply div_nonneg _ hden_pos.le
+  apply Soft64R.fl64_nonneg
+  have : 0 ≤ fl64 (fl64 (p - edge 0) + pt) := by
+    apply Soft64R.fl64_nonneg
+    have := Soft64R.fl64_nonneg (x := p - edge 0) (by linarith)
+    linarith
+  linarith
+
+/-- **C02 "a value at or above an edge may not go below it", for every point tolerance.** Float64 edges: strictly increasing,
+2 ≤ n ≤ 2^40, float step `h ≥ 2^-1021`, `|a0|ε ≤ h/4`, every edge at most h/4 below its regular position; any configuration whose
+quotient is `qG pt` with `pt ≥ 0`. Then the result is never below the ideal bin (largest k with `bins[k] ≤ p`); the only other
+outcome is −1 in closed mode when `p` has reached `bins[-1]+h` or the floor formula itself has reached n. -/
+theorem bin1dF_gen_never_below (c : Cfg) (hbd : c.bd = .f64) (bins : List ℚ) (p pt : ℚ) (hpt0 : 0 ≤ pt) (hn : 1 < bins.length)
+    (hq : quotF c bins.length (fun k => bins.getD k 0) p = (DT.f64, qG pt bins.length (fun k => bins.getD k 0) p))
+    (hn40 : (bins.length : ℤ) ≤ 2 ^ 40) (hs : bins.Pairwise (· < ·))
+    (hh : pow2 (-1021) ≤ hOf .f64 bins.length (fun j => bins.getD j 0))
+    (hat : getTol .f64 (bins.getD 0 0) ≤ hOf .f64 bins.length (fun j => bins.getD j 0) / 4)
+    (hreg : ∀ j : ℕ, j < bins.length →
+      bins.getD 0 0 + ((j : ℚ) - 1 / 4) * hOf .f64 bins.length (fun j => bins.getD j 0) ≤ bins.getD j 0) :
+    binIdeal bins p ≤ bin1dF c bins p ∨
+      (c.rc = false ∧ bin1dF c bins p = -1 ∧
+        (topOf .f64 bins.length (fun j => bins.getD j 0) ≤ p ∨
+          (bins.length : ℤ) ≤ ⌊qG pt bins.length (fun j => bins.getD j 0) p⌋)) := by
+  have hb : bins ≠ [] := by intro h; simp [h] at hn
+  have hrange := bin1dF_range c bins hb p
+  have hKr := binIdeal_range bins p
+  by_cases hK0 : binIdeal bins p < 0
+  · left; omega
+  have hK0' : 0 ≤ binIdeal bins p := by omega
+  obtain ⟨K, hKeq⟩ := Int.eq_ofNat_of_zero_le hK0'
+  have hKlt : K < bins.length := by omega
+  have hedge : bins[K] ≤ p := ((binIdeal_eq_iff hs p hKlt).1 hKeq).1
+  have hgetD : bins.getD K 0 = bins[K] := by simp [List.getD, hKlt]
+  set edge := (fun j => bins.getD j 0) with hedge_def
+  set n := bins.length with hn_def
+  have hi : (K : ℤ) - 1 ≤ ⌊qG pt n edge p⌋ ∧ 0 ≤ ⌊qG pt n edge p⌋ := by
+    have h0 : edge 0 ≤ p := by
+      have h00 : edge 0 ≤ edge K := by
+        rcases Nat.eq_zero_or_pos K with hz | hpos
+        · rw [hz]
+        · have h0lt : 0 < bins.length := by omega
+          have : bins[0] < bins[K] := List.pairwise_iff_getElem.mp hs 0 K h0lt hKlt hpos
+          have e0 : edge 0 = bins[0] := by simp [hedge_def, List.getD, h0lt]
+          have eK : edge K = bins[K] := hgetD
+          rw [e0, eK]; exact this.le
+      have eK : edge K = bins[K] := hgetD
+      linarith
+    have hnn : 0 ≤ ⌊qG pt n edge p⌋ := Int.floor_nonneg.mpr (qG_nonneg edge p pt hpt0 hh hat h0)
+    refine ⟨?_, hnn⟩
+    rcases Nat.eq_zero_or_pos K with hz | hpos
+    · subst hz; push_cast; omega
+    · have := qG_lower hn edge p pt hpt0 (K : ℤ) (by omega) (by omega) hh hat (by
+        have := hreg K hKlt
+        have eK : edge K = bins[K] := hgetD
+        simp only [Int.cast_natCast]
+        change edge 0 + ((K : ℚ) - 1 / 4) * hOf .f64 n edge ≤ p
+        have : edge 0 + ((K : ℚ) - 1 / 4) * hOf .f64 n edge ≤ edge K := this
+        linarith)
+      exact Int.le_floor.mpr this
+  have hcorr : (K : ℤ) ≤ corrInt n edge (topOf .f64 n edge) p ⌊qG pt n edge p⌋ := by
+    by_cases hik : ⌊qG pt n edge p⌋ = (K : ℤ) - 1
+    · have h1 : ⌊qG pt n edge p⌋ + 1 < (n : ℤ) := by omega
+      have h2 : edge (⌊qG pt n edge p⌋ + 1).toNat ≤ p := by
+        have : (⌊qG pt n edge p⌋ + 1).toNat = K := by omega
+        rw [this]
+        have eK : edge K = bins[K] := hgetD
+        rw [eK]; exact hedge
+      have := corrInt_hit (n := n) edge (topOf .f64 n edge) p hi.2 h1 h2
+      omega
+    · have := corrInt_ge n edge (topOf .f64 n edge) p ⌊qG pt n edge p⌋
+      omega
+  have hcore : bin1dF c bins p
+      = clampInt c.rc n (corrInt n edge (topOf .f64 n edge) p ⌊qG pt n edge p⌋) := by
+    unfold bin1dF
+    exact bin1dCore_gen c hbd hn (by omega) edge p _ hq
+  rw [hcore, hKeq]
+  cases hrc : c.rc with
+  | true => left; exact clampInt_open_ge hcorr (by omega)
+  | false =>
+    rcases clampInt_closed_ge hn hcorr (by omega) with h | ⟨h1, h2⟩
+    · left; exact h
+    · right; exact ⟨rfl, h1, corrInt_ge_n _ _ _ h2⟩
+
+/-- **`tol=` override, lower side**: with `tol = t > 0` (`get_magnitude_index(mags, tol)`, `magnitude_counts(tol=)`,
+`bin1d_vec(…, tol=t)`) a value at or above an edge never goes below that edge's bin -/
+theorem bin1dF_tol_never_below (t : ℚ) (ht : 0 < t) (rc : Bool) (bins : List ℚ) (p : ℚ) (hn : 1 < bins.length)
+    (hn40 : (bins.length : ℤ) ≤ 2 ^ 40) (hs : bins.Pairwise (· < ·))
+    (hh : pow2 (-1021) ≤ hOf .f64 bins.length (fun j => bins.getD j 0))
+    (hat : getTol .f64 (bins.getD 0 0) ≤ hOf .f64 bins.length (fun j => bins.getD j 0) / 4)
+    (hreg : ∀ j : ℕ, j < bins.length →
+      bins.getD 0 0 + ((j : ℚ) - 1 / 4) * hOf .f64 bins.length (fun j => bins.getD j 0) ≤ bins.getD j 0) :
+    binIdeal bins p ≤ bin1dF (cfgTol t rc) bins p ∨
+      (rc = false ∧ bin1dF (cfgTol t rc) bins p = -1 ∧
+        (topOf .f64 bins.length (fun j => bins.getD j 0) ≤ p ∨
+          (bins.length : ℤ) ≤ ⌊qG (fl64 t) bins.length (fun j => bins.getD j 0) p⌋)) :=
+  bin1dF_gen_never_below (cfgTol t rc) rfl bins p (fl64 t) (Soft64R.fl64_nonneg ht.le) hn
+    (quotF_cfgTol t (ne_of_gt ht) rc hn _ p) hn40 hs hh hat hreg
+
+/-- **integer points on float64 edges, lower side** -/
+theorem bin1dF_intpts_never_below (rc : Bool) (bins : List ℚ) (p : ℚ) (hn : 1 < bins.length)
+    (hn40 : (bins.length : ℤ) ≤ 2 ^ 40) (hs : bins.Pairwise (· < ·))
+    (hh : pow2 (-1021) ≤ hOf .f64 bins.length (fun j => bins.getD j 0))
+    (hat : getTol .f64 (bins.getD 0 0) ≤ hOf .f64 bins.length (fun j => bins.getD j 0) / 4)
+    (hreg : ∀ j : ℕ, j < bins.length →
+      bins.getD 0 0 + ((j : ℚ) - 1 / 4) * hOf .f64 bins.length (fun j => bins.getD j 0) ≤ bins.getD j 0) :
+    binIdeal bins p ≤ bin1dF (cfgIntPts rc) bins p ∨
+      (rc = false ∧ bin1dF (cfgIntPts rc) bins p = -1 ∧
+        (topOf .f64 bins.length (fun j => bins.getD j 0) ≤ p ∨
+          (bins.length : ℤ) ≤ ⌊qG 0 bins.length (fun j => bins.getD j 0) p⌋)) :=
+  bin1dF_gen_never_below (cfgIntPts rc) rfl bins p 0 le_rfl hn (quotF_cfgIntPts rc hn _ p) hn40 hs hh hat hreg
+
+/-- hence the magnitude call sites with `tol=`: an event magnitude at or above a bin edge is never counted below that bin
+(open-ended mode: no exception) -/
+theorem magCfg_tol_never_below (t : ℚ) (ht : 0 < t) (bins : List ℚ) (p : ℚ) (hn : 1 < bins.length)
+    (hn40 : (bins.length : ℤ) ≤ 2 ^ 40) (hs : bins.Pairwise (· < ·))
+    (hh : pow2 (-1021) ≤ hOf .f64 bins.length (fun j => bins.getD j 0))
+    (hat : getTol .f64 (bins.getD 0 0) ≤ hOf .f64 bins.length (fun j => bins.getD j 0) / 4)
+    (hreg : ∀ j : ℕ, j < bins.length →
+      bins.getD 0 0 + ((j : ℚ) - 1 / 4) * hOf .f64 bins.length (fun j => bins.getD j 0) ≤ bins.getD j 0) :
+    binIdeal bins p ≤ bin1dF (magCfg .f64 .f64 (some t)) bins p := by
+  rw [magCfg_tol_eq]
+  rcases bin1dF_tol_never_below t ht true bins p hn hn40 hs hh hat hreg with h | ⟨h, _⟩
+  · exact h
+  · exact absurd h (by simp)
+
+-- non-vacuity: the witness grid 5.9, 33.2, … satisfies the hypotheses (kernel evaluation); with `tol = 2^-17` the edge 87.8 itself
+-- (the value that used to land one bin low, D2) is placed in bin 3, and the integer 88 too
+example : (witnessBins.length : ℤ) ≤ 2 ^ 40 ∧ pow2 (-1021) ≤ hOf .f64 witnessBins.length (fun j => witnessBins.getD j 0) ∧
+    getTol .f64 (witnessBins.getD 0 0) ≤ hOf .f64 witnessBins.length (fun j => witnessBins.getD j 0) / 4 := by decide +kernel
+example : witnessBins.Pairwise (· < ·) := by unfold witnessBins; decide +kernel
+example : ∀ j : ℕ, j < witnessBins.length →
+    witnessBins.getD 0 0 + ((j : ℚ) - 1 / 4) * hOf .f64 witnessBins.length (fun j => witnessBins.getD j 0) ≤ witnessBins.getD j 0 := by
+  decide +kernel
+example : bin1dF (cfgTol (1 / 131072) false) witnessBins (6178375738798899 / 70368744177664) = 3 ∧
+    bin1dF (cfgIntPts false) witnessBins 88 = 3 ∧ binIdeal witnessBins 88 = 3 := by decide +kernel
+
 end Bin1d
